@@ -267,6 +267,13 @@ func (g *gen) loopWritten(li *loopInfo) map[string]bool {
 	return out
 }
 
+func (g *gen) entryOr(pre State) State {
+	if g.entry != nil {
+		return g.entry
+	}
+	return pre
+}
+
 func (g *gen) loopWritesOld(li *loopInfo, c string) bool {
 	for b := range li.body {
 		if g.dryOldB[b][c] {
@@ -301,7 +308,8 @@ func (g *gen) loopHeader(b *ssa.BasicBlock, li *loopInfo, in State, rc string) (
 	autos := g.autoInvariants(b, li)
 	// 2. entry obligations
 	for _, cl := range invs {
-		e := g.newEnv(in, pre)
+		e := g.newEnv(in, g.entryOr(pre)) // old(): function entry; pre(): the state before the loop
+		e.pre = pre
 		e.atBlock = b
 		t, err := g.elabBool(cl.E, e)
 		if err != nil {
@@ -354,7 +362,8 @@ func (g *gen) loopHeader(b *ssa.BasicBlock, li *loopInfo, in State, rc string) (
 		g.ctx.assume(implies(rc, a.at(g, cur)))
 	}
 	for _, cl := range invs {
-		e := g.newEnv(st, pre)
+		e := g.newEnv(st, g.entryOr(pre))
+		e.pre = pre
 		e.atBlock = b
 		t, err := g.elabBool(cl.E, e)
 		if err != nil {
@@ -405,7 +414,8 @@ func (g *gen) loopBackEdge(src, header *ssa.BasicBlock, st State, rc string) {
 		g.vals[p] = v
 	}
 	for _, cl := range g.loopInvariants(li) {
-		e := g.newEnv(st, g.loopPre[header])
+		e := g.newEnv(st, g.entryOr(g.loopPre[header]))
+		e.pre = g.loopPre[header]
 		e.atBlock = header
 		t, err := g.elabBool(cl.E, e)
 		if err != nil {
